@@ -363,13 +363,11 @@ func execC07Cluster(t *testing.T, prog *hx.Program, dec *simrt.Decider, verbose 
 
 // ---- single mode -------------------------------------------------------------------------------------
 
-// avoidReportsInFlightDuringFailover: FINDING on the unchanged tree (see c07Run.creport): a report that
-// arrives while the election triggered by an earlier report is still being replicated triggers a second
-// election (failover.go report(): the witnesses stay complete until the first election has returned).
-// While this is true the generator (never the oracle) shapes the concurrent rounds of reports so that at
-// most one report can arrive once the quorum is complete; a program with the parameter
-// "inflight_past_quorum" = 1 is executed unshaped whatever this says (the recorded replay has it).
-const avoidReportsInFlightDuringFailover = true
+// avoidReportsInFlightDuringFailover shapes the concurrent rounds of reports so that at most one report can
+// arrive once the quorum is complete. The pinned tree started a second and third election when reports
+// arrived while the first election was still being replicated (repaired, see known_findings.json); the
+// rounds are generated unshaped, the switch remains for bisecting.
+const avoidReportsInFlightDuringFailover = false
 
 // c07Part is the reference state of one partition of the stream.
 type c07Part struct {
